@@ -6,6 +6,7 @@ import (
 
 	"github.com/libp2p/go-libp2p/p2p/host/eventbus"
 
+	"berty.tech/go-ipfs-log/entry/sorting"
 	"berty.tech/go-ipfs-log/identityprovider"
 	orbitdb "berty.tech/go-orbit-db"
 	"berty.tech/go-orbit-db/accesscontroller"
@@ -35,6 +36,10 @@ func DefaultOrbitDBOptions(g *protocoltypes.Group, options *orbitdb.CreateDBOpti
 
 	t := true
 	options.Create = &t
+
+	// every device writes under the group's identity, so concurrent entries can carry the same
+	// clock time and the same clock id: order them by entry hash instead of by arrival
+	options.SortFn = sorting.SortByEntryHash
 
 	if options.EventBus == nil {
 		options.EventBus = eventbus.NewBus()
